@@ -73,6 +73,7 @@ pub fn fs_glob_cfg(tree: &TreeSpec) -> GenCfg {
     c.max_toks = 5;
     c.max_depth = 2;
     c.noise_flags = 4;
+    c.class_sep = 0;
     c.ci = 25;
     c.weights = [30, 22, 5, 14, 12, 5, 8, 6];
     c
